@@ -357,6 +357,8 @@ def main():
                     is_known = o.get('label') and any(k.startswith('known:') and ('property=%s ' % prop) in k and ('unit=%s ' % uid) in k and ('label=%s ' % o['label']) in k + ' ' for k in known)
                     if (tprops and prop not in tprops) or is_known:
                         foreign += 1
+                if u.get('instantiation'):
+                    rep['instantiation'] = u['instantiation']
                 if u.get('bounded'):
                     bounded_n += c['n'] - foreign; bounded_ok += c['discharged']; bounded_units += 1
                     rep['bounded'] = u['bounded']
